@@ -431,6 +431,19 @@ def main():
             check_binnify(B, sizes, b, f"all-{len(lens)}chrom", dtype="int32" if (i + b) % 5 == 0 else "int64",
                           btype="np.int64" if (i + b) % 7 == 0 else "int")
             nb += 1
+    # ---- binnify at the bin edge: lengths that are exact multiples of the width (and one more / one less), for EVERY width
+    # 1..200 and a set of genome-scale widths, multiples 1..40: this is where any rounding in the bin count shows
+    # (a spurious empty last bin, a missing last bin)
+    wide = list(range(14, 201)) + [1000, 5000, 25000, 50000, 100000, 200000, 10 ** 6, 2 ** 20 + 1]
+    if not th:
+        wide = [w for w in wide if w % 2 == 1 or w >= 1000 or w % 25 == 0]
+    for b in wide:
+        for m in (range(1, 41) if (th or b < 1000) else (1, 2, 3, 6, 7, 11, 12, 25, 39, 40)):
+            for d in (0, 1, -1):
+                L = b * m + d
+                if L >= 1:
+                    check_binnify(B, [(NAMES[0], L)], b, "exact-multiples", infer=False)
+                    nb += 1
     # ---- inference: all valid tables
     ni = 0
     forms = ["object", "categorical", "int32-coords", "categorical+unused", "extra-columns+offset-index"]
@@ -493,7 +506,9 @@ def main():
         check_parse_bins_bed(B, [("chrQ", e)], 10000 + i)
     check_parse_bins_errors(B)
     B.exhaustive = not th
-    B.bound = (f"binnify: ALL chromosome-size tables with 1-2 chromosomes of length 1..12 and 3 chromosomes of length in {list(L3) if not th else '1..12'}"
+    B.bound = ("binnify at the bin edge: one chromosome of length width*m + {0, 1, -1} for widths 14..200 "
+               + ("(all)" if th else "(odd and multiples of 25)") + " and 8 genome-scale widths, m = 1..40; " +
+               f"binnify: ALL chromosome-size tables with 1-2 chromosomes of length 1..12 and 3 chromosomes of length in {list(L3) if not th else '1..12'}"
                f" (ordered) x widths 1..13 = {nb} calls, int64/int32 lengths, int/np.int64 width, each followed by get_binsize and get_chromsizes "
                f"on the result; inference (get_binsize truthful, get_chromsizes): ALL valid bin tables with 1 chromosome (edges<={M1}), "
                f"2 chromosomes (edges<={M2}, <={bins2} bins each), 3 chromosomes (edges<={M3}, <={bins3} bins each), <=4 bins per chromosome, plus {len(st)} structured "
